@@ -571,7 +571,7 @@ func (w *Worker) poolIntrinsic(full string, fn *ssa.Function, args []Val) (Val, 
 		s := args[0].(Slice)
 		if s.Obj != 0 {
 			o := w.obj(s.Obj)
-			if o.Pooled == 2 {
+			if o.Pooled >= 2 { // released (2), or released and since recycled (3)
 				w.poolViolation("pooled buffer released twice")
 			}
 			// a buffer whose cap is a pooled size class is retained by the pool
@@ -679,7 +679,7 @@ func (w *Worker) releaseBufio(v Val, kind string) {
 			s := w.load(Ptr{p.Obj, p.Off + w.fieldOffset(st, i)}, st.Field(i).Type()).(Slice)
 			if s.Obj != 0 && s.Cap >= 256 && s.Cap <= 65536 && s.Cap&(s.Cap-1) == 0 {
 				mo := w.mut(s.Obj)
-				if mo.Pooled == 2 {
+				if mo.Pooled >= 2 {
 					w.poolViolation("pooled bufio buffer released twice")
 				}
 				mo.Pooled = 2
